@@ -1191,7 +1191,11 @@ func checkEnv(c envCase) evid.Outcome {
 	// unwrapping succeeds exactly when the RFC 3394 integrity check passes
 	agree := func(what string, kek, wrapped []byte) string {
 		got, err := backend.KeyEnvelope{KEKLabel: c.Label, AESKey: backend.HEXBytes(append([]byte{}, wrapped...))}.Unwrap(append([]byte{}, kek...))
-		refKey, refErr := ref.KeyUnwrap(kek, wrapped)
+		var refKey []byte
+		refErr := fmt.Errorf("a KEK of %d bytes is no AES key", len(kek))
+		if validKEK(len(kek)) {
+			refKey, refErr = ref.KeyUnwrap(kek, wrapped)
+		}
 		if (err == nil) != (refErr == nil) {
 			return fmt.Sprintf("%s, %s (wrapped bytes %x, kek %x): Unwrap error is %v, the RFC 3394 integrity check says %v", id, what, wrapped, kek, err, refErr)
 		}
@@ -1230,6 +1234,20 @@ func checkEnv(c envCase) evid.Outcome {
 	oneBit[int(c.Key[0])%len(oneBit)] ^= 1 << (c.Key[1] % 8)
 	if d := agree("the KEK with one bit flipped", oneBit, want); d != "" {
 		return evid.Fail("%s", d)
+	}
+	// a receiver that has no KEK for the label, or something that is no AES key: nothing to check the integrity with
+	for _, n := range []int{0, 1, 15, 17, 31, 33} {
+		var kek []byte
+		if n > 0 {
+			pool := append(append(append([]byte{}, c.KEK...), c.KEK2...), c.Key...) // at least 48 bytes
+			kek = append([]byte{}, pool[:n]...)
+		}
+		if d := agree(fmt.Sprintf("a KEK of %d bytes", n), kek, want); d != "" {
+			return evid.Fail("%s", d)
+		}
+	}
+	if got, err := (backend.KeyEnvelope{KEKLabel: c.Label, AESKey: backend.HEXBytes(append([]byte{}, want...))}).Unwrap(nil); err == nil {
+		return evid.Fail("%s: Unwrap(nil) of the labelled (wrapped) envelope succeeds with %s; without the KEK the integrity check cannot pass", id, got)
 	}
 	return evid.Outcome{NonTrivial: true, Class: fmt.Sprintf("wrapped/kek%d", len(c.KEK)*8)}
 }
@@ -1291,6 +1309,6 @@ func TestProp(t *testing.T) {
 		12000, 300000, genClient, checkClient)
 
 	evid.Rapid(r, t, "key-envelope",
-		"KEK of 16/24/32 random bytes, 16-byte key, label empty (1/6) or not. With label: AESKey == reference RFC 3394 wrap (internal/ref, checked against the RFC vectors), the envelope survives JSON, Unwrap with the KEK gives the key before and after JSON; for each of the 192 single-bit corruptions of the wrapped bytes, for another KEK (any of the three lengths) and for the KEK with one bit flipped, Unwrap succeeds exactly when the reference integrity check passes (and then gives the reference's key). Without label: KEKLabel empty and AESKey == key in clear, surviving JSON. Non-trivial: every labelled case (194 corrupted unwraps each).",
+		"KEK of 16/24/32 random bytes, 16-byte key, label empty (1/6) or not. With label: AESKey == reference RFC 3394 wrap (internal/ref, checked against the RFC vectors), the envelope survives JSON, Unwrap with the KEK gives the key before and after JSON; for each of the 192 single-bit corruptions of the wrapped bytes, for another KEK (any of the three lengths), for the KEK with one bit flipped and for KEKs of 0, 1, 15, 17, 31, 33 bytes (and nil), Unwrap succeeds exactly when the reference integrity check passes (and then gives the reference's key). Without label: KEKLabel empty and AESKey == key in clear, surviving JSON. Non-trivial: every labelled case (194 corrupted unwraps each).",
 		6000, 200000, genEnv, checkEnv)
 }
